@@ -95,8 +95,11 @@ func Shrink(raw json.RawMessage) []json.RawMessage {
 	if sc.Dst != "/w/dst" {
 		emit(func(c *Scenario) bool { c.Dst = "/w/dst"; return true })
 	}
+	if sc.ConcPeer {
+		emit(func(c *Scenario) bool { c.ConcPeer = false; c.Tapes, c.HaveTape = nil, false; return true })
+	}
 	if sc.SharedPacker {
-		emit(func(c *Scenario) bool { c.SharedPacker = false; return true })
+		emit(func(c *Scenario) bool { c.SharedPacker = false; c.ConcPeer = false; c.Tapes, c.HaveTape = nil, false; return true })
 	}
 	for ai := range sc.Archives {
 		ai := ai
